@@ -21,6 +21,7 @@ struct stream {
 	char klass[56];
 	int nreq, meth[2];
 	uint8_t *bytes; size_t len;
+	int reconn;      /* a reconnect is accepted by the harness and answered with R3 on the new connection */
 };
 static struct stream cat[600]; static int ncat;
 
@@ -43,6 +44,9 @@ static void add_stream(const char *klass, int nreq, int m0, int m1, int nparts, 
 #define END  "\r\n"
 #define R2CL  "HTTP/1.1 201 Created\r\nContent-Length: 6\r\nX-Second: yes\r\n\r\nworld!"
 #define R2CLOSE "HTTP/1.1 202 Accepted\r\nX-Second: yes\r\n\r\nrest"
+#define R2CH "HTTP/1.1 200 OK\r\nTransfer-Encoding: chunked\r\nX-Second: yes\r\n\r\n4\r\nwor \r\n3\r\nld!\r\n0\r\nX-Trailer: t\r\n\r\n"
+/* what the harness answers on a NEW connection (streams with reconn = 1) */
+static const char R3[] = "HTTP/1.1 203 Non-Authoritative Information\r\nContent-Length: 3\r\nX-Conn: 2\r\n\r\nnew";
 
 static void one(const char *klass, const char *p, size_t n) { add_stream(klass, 1, M_GET, 0, 1, p, n); }
 
@@ -289,9 +293,29 @@ static void build_catalogue(void)
 	for (size_t i = 0; i < sizeof firsts / sizeof firsts[0]; i++) {
 		add_stream(firsts[i].k, 2, firsts[i].m0, M_GET, 2, firsts[i].r1, firsts[i].n, S(R2CL));
 		add_stream(firsts[i].k, 2, firsts[i].m0, M_GET, 2, firsts[i].r1, firsts[i].n, S(R2CLOSE));
+		/* thorough only (-P extra=1): second response chunked with a trailer */
+		if (mc_param("extra", 0)) add_stream(firsts[i].k, 2, firsts[i].m0, M_GET, 2, firsts[i].r1, firsts[i].n, S(R2CH));
 	}
 	add_stream("q-second-head", 2, M_GET, M_HEAD, 2, S(SL CL5 END "hello"), S("HTTP/1.1 200 OK\r\nContent-Length: 6\r\n\r\n"));
 	add_stream("q-only-first-answered", 2, M_GET, M_GET, 1, S(SL CL5 END "hello"));
+
+	/* --- E: response 1 ends the connection, bytes follow it, and the reconnect for request 2 SUCCEEDS:
+	 * request 2 must get what the new connection says (R3) or fail, never the stale bytes --- */
+	static const struct { const char *k; const char *r1; size_t n; } ends[] = {
+#define F(k, lit) { k, lit, sizeof(lit) - 1 }
+		F("qr-conn-close", SL CL5 "Connection: close\r\n" END "hello"),
+		F("qr-conn-close-chunked", SL TEC "Connection: close\r\n" END "5\r\nhello\r\n0\r\n\r\n"),
+		F("qr-conn-close-204", "HTTP/1.1 204 No Content\r\nConnection: close\r\n" END),
+		F("qr-close-delimited", SL END "hello"),
+		F("qr-cl-dup-diff", SL CL5 "Content-Length: 6\r\n" END "hello!"),
+		F("qr-ch-bad-size", SL TEC END "zz\r\nhello\r\n0\r\n\r\n"),
+		F("qr-http10-cl", "HTTP/1.0 200 OK\r\n" CL5 END "hello"),
+#undef F
+	};
+	for (size_t i = 0; i < sizeof ends / sizeof ends[0]; i++) {
+		add_stream(ends[i].k, 2, M_GET, M_GET, 2, ends[i].r1, ends[i].n, S(R2CL));
+		cat[ncat - 1].reconn = 1;
+	}
 }
 
 /* ------------------------------------------------------------------ */
@@ -371,6 +395,31 @@ static int count_requests(const struct hc_buf *b)
 	return k;
 }
 
+/* reconnect service for streams with reconn = 1: accept on the worker's listener, read the request, answer R3 */
+static int rc_fd = -1; static struct hc_buf rc_in; static int rc_answered;
+static void serve_reconnect(struct evhttp_connection *evcon)
+{
+	if (rc_fd < 0) {
+		if (evcon->state == EVCON_CONNECTING) hc_real_wait(hc_worker_listen_fd, POLLIN, 1000);
+		rc_fd = accept(hc_worker_listen_fd, NULL, NULL);
+		if (rc_fd < 0) return;
+		hc_nonblock(rc_fd);
+		MC_COUNT("reconnects_accepted");
+		hc_run();
+		hc_real_wait(rc_fd, POLLIN, 100);
+	}
+	if (!rc_answered) {
+		hc_peer_drain(rc_fd, &rc_in);
+		if (count_requests(&rc_in) >= 1) {
+			rc_answered = 1;
+			hc_peer_write(rc_fd, R3, sizeof R3 - 1);
+			hc_real_wait(bufferevent_getfd(evcon->bufev), POLLIN, 200);
+			hc_run();
+		}
+	}
+}
+#define STEP() do { hc_run(); hc_settle_connect(evcon); if (st->reconn) serve_reconnect(evcon); } while (0)
+
 /* deliver st->bytes[0..avail) cut at cuts[0..ncuts) (ascending, strictly inside), then half-close */
 static void run_scenario(const struct stream *st, const size_t *cuts, int ncuts, size_t avail, struct scen *sc)
 {
@@ -385,7 +434,9 @@ static void run_scenario(const struct stream *st, const size_t *cuts, int ncuts,
 	struct bufferevent *bev = bufferevent_socket_new(hc_base, sv[0], BEV_OPT_CLOSE_ON_FREE);
 	struct evhttp_connection *evcon = evhttp_connection_base_bufferevent_reuse_new(hc_base, NULL, bev);
 	if (!bev || !evcon) { mc_fail("harness:setup", "bufferevent/evcon"); abort(); }
-	hc_set_peer_addr(evcon, hc_refused_port);       /* a reconnect is refused, deterministically */
+	/* a reconnect is refused, deterministically -- or, for reconn streams, accepted by the worker's listener */
+	hc_set_peer_addr(evcon, st->reconn ? hc_worker_listen_port : hc_refused_port);
+	if (st->reconn) { hc_worker_listener_drain(); rc_fd = -1; rc_answered = 0; hc_buf_reset(&rc_in); }
 	for (int r = 0; r < st->nreq; r++) {
 		struct evhttp_request *req = evhttp_request_new(on_done, &args[r]);
 		evhttp_request_set_error_cb(req, on_error);
@@ -404,8 +455,7 @@ static void run_scenario(const struct stream *st, const size_t *cuts, int ncuts,
 		if (to > from) {
 			/* EPIPE: the client has already dropped the connection; the rest cannot be delivered */
 			if (hc_peer_write(sv[1], st->bytes + from, to - from) < 0 && errno != EPIPE && errno != ECONNRESET) mc_fail("harness:peer-write", "%s", strerror(errno));
-			hc_run();
-			hc_settle_connect(evcon);
+			STEP();
 		}
 		from = to;
 	}
@@ -415,9 +465,8 @@ static void run_scenario(const struct stream *st, const size_t *cuts, int ncuts,
 	int nrecv = count_requests(&got);
 	for (int r = 0; r < st->nreq; r++) sc->o[r].sent_before_eof = r < nrecv;
 	shutdown(sv[1], SHUT_WR);
-	hc_run();
-	hc_settle_connect(evcon);
-	hc_run();
+	STEP();
+	STEP();
 	/* anything still pending can only be finished by a timeout: let virtual time pass */
 	int pending = 0;
 	for (int r = 0; r < st->nreq; r++) if (!sc->o[r].called) pending = 1;
@@ -425,13 +474,15 @@ static void run_scenario(const struct stream *st, const size_t *cuts, int ncuts,
 		cur_seg = ncuts + 2;
 		for (int i = 0; i < 6 && pending; i++) {
 			hc_run_timers(4);
-			hc_settle_connect(evcon);
+			STEP();
 			pending = 0;
 			for (int r = 0; r < st->nreq; r++) if (!sc->o[r].called) pending = 1;
 		}
 	}
 	evhttp_connection_free(evcon);
 	close(sv[1]);
+	if (rc_fd >= 0) { struct linger lg = { 1, 0 }; setsockopt(rc_fd, SOL_SOCKET, SO_LINGER, &lg, sizeof lg); close(rc_fd); rc_fd = -1; }
+	if (st->reconn) hc_worker_listener_drain();
 	hc_exec_end();
 	hc_buf_free(&got);
 	cur_scen = NULL;
@@ -441,7 +492,7 @@ static void run_scenario(const struct stream *st, const size_t *cuts, int ncuts,
 /* expectations                                                        */
 
 enum xclass { X_ACCEPT, X_ACCEPT_OR_FAIL, X_FAIL, X_LATITUDE, X_FAIL_OR_ANY };
-struct xpect { enum xclass c; struct r9_msg m; int have_msg; size_t end_off; const char *why; };
+struct xpect { enum xclass c; struct r9_msg m; int have_msg; size_t end_off; const char *why; int no_timing; };
 
 static void compute_expect(const struct stream *st, size_t avail, struct xpect ex[2])
 {
@@ -449,6 +500,12 @@ static void compute_expect(const struct stream *st, size_t avail, struct xpect e
 	memset(ex, 0, 2 * sizeof ex[0]);
 	for (int r = 0; r < st->nreq; r++) {
 		struct xpect *e = &ex[r];
+		if (dead && st->reconn && !loose) {
+			/* the request goes to a new connection, which answers R3: that, or a failure, never the stale bytes */
+			r9_parse_response((const uint8_t *)R3, sizeof R3 - 1, 1, R9_REQ_OTHER, &e->m);
+			e->have_msg = 1; e->c = X_ACCEPT_OR_FAIL; e->no_timing = 1; e->why = "answered on a new connection";
+			continue;
+		}
 		if (dead) { e->c = X_FAIL; e->why = "connection ended before this request"; continue; }
 		enum r9_reqkind rk = st->meth[r] == M_HEAD ? R9_REQ_HEAD : R9_REQ_OTHER;
 		enum r9_result res = r9_parse_response(st->bytes + off, avail - off, 1, rk, &e->m);
@@ -542,7 +599,7 @@ static void check_against_reference(const struct stream *st, size_t avail, const
 				fail_key("wrong-body", st, r, "reference body %zu bytes (framing %d), callback got %s", m->blen, (int)m->framing, ren);
 			/* framing decides where the message ends: a length-delimited response must be complete
 			 * as soon as its last byte has been delivered, not only when the peer closes */
-			if (m->framing != R9_F_CLOSE && o->sent_before_eof && ok && o->body.n == m->blen) {
+			if (m->framing != R9_F_CLOSE && o->sent_before_eof && ok && o->body.n == m->blen && !e->no_timing) {
 				int seg = 0;
 				while (seg < ncuts && cuts[seg] < e->end_off) seg++;
 				MC_COUNT("oracle_completion_time");
@@ -558,17 +615,18 @@ static void check_against_reference(const struct stream *st, size_t avail, const
 /* ------------------------------------------------------------------ */
 
 static int modes[8], nmodes;
-enum { MODE_WHOLE, MODE_CUT1, MODE_CUT2, MODE_BYTES, MODE_EOF, MODE_EOF_CUT1, MODE_EOF_BYTES };
-static const char *mode_names[] = { "whole", "cut1", "cut2", "bytes", "eof", "eof+cut1", "eof+bytes" };
+enum { MODE_WHOLE, MODE_CUT1, MODE_CUT2, MODE_BYTES, MODE_EOF, MODE_EOF_CUT1, MODE_EOF_BYTES, MODE_CUT3 };
+static const char *mode_names[] = { "whole", "cut1", "cut2", "bytes", "eof", "eof+cut1", "eof+bytes", "cut3" };
 
 static long live0; static uint64_t fd0;
 
 static void init(void)
 {
 	hc_global_init();
+	hc_worker_listener_init();
 	build_catalogue();
 	const char *ms = mc_param_str("modes", "0134 6");
-	for (const char *p = ms; *p; p++) if (*p >= '0' && *p <= '6') modes[nmodes++] = *p - '0';
+	for (const char *p = ms; *p; p++) if (*p >= '0' && *p <= '7' && nmodes < 8) modes[nmodes++] = *p - '0';
 	live0 = mcx_alloc_live(); fd0 = mcx_fd_signature();
 }
 
@@ -592,6 +650,13 @@ static void body(void)
 		if (lim < 3) { trivial = 1; break; }
 		cuts[0] = 1 + (size_t)mc_choose((int)lim - 2, 0, "cut1");
 		cuts[1] = cuts[0] + 1 + (size_t)mc_choose((int)(lim - 1 - cuts[0]), 0, "cut2"); ncuts = 2; break;
+	case MODE_CUT3: {
+		/* every triple of cuts among the first maxlen3 byte boundaries */
+		size_t l3 = len > (size_t)mc_param("maxlen3", 100) ? (size_t)mc_param("maxlen3", 100) : len;
+		if (l3 < 4) { trivial = 1; break; }
+		cuts[0] = 1 + (size_t)mc_choose((int)l3 - 3, 0, "cut1");
+		cuts[1] = cuts[0] + 1 + (size_t)mc_choose((int)(l3 - 2 - cuts[0]), 0, "cut2");
+		cuts[2] = cuts[1] + 1 + (size_t)mc_choose((int)(l3 - 1 - cuts[1]), 0, "cut3"); ncuts = 3; break; }
 	case MODE_BYTES:
 		if (len < 2) { trivial = 1; break; }
 		for (size_t i = 1; i < len && ncuts < 511; i++) cuts[ncuts++] = i;
@@ -632,7 +697,7 @@ static void body(void)
 		scen_free(&base);
 	}
 	mc_observe("#%d %s %s avail=%zu/%zu cuts=%d:", si, st->klass, mode_names[mode], avail, len, ncuts);
-	if (ncuts > 0 && ncuts <= 2) mc_observe("@%zu%s", cuts[0], ncuts == 2 ? "+" : "");
+	if (ncuts > 0 && ncuts <= 3) mc_observe("@%zu%s", cuts[0], ncuts >= 2 ? "+" : "");
 	for (int r = 0; r < st->nreq; r++) mc_observe(" r%d=%s", r + 1, r1[r]);
 	scen_free(&sc);
 	if (mcx_alloc_live() != live0) { mc_fail("C24/hygiene/leak", "%ld library allocations left after stream #%d (%s)", mcx_alloc_live() - live0, si, st->klass); live0 = mcx_alloc_live(); }
